@@ -244,6 +244,14 @@ def families(tier, seed):
         yield Instance(f"topo-unit-side|{tn}", mol(tok("N"), sto("[>]", [u1, "[<]CO[>]"], ["[<]Cl"], "[<]", g0(round(1.2 * mass(u1), 3))), tok("F")), family="role-topology")
         u2 = "[<]" + body + "[>]"
         yield Instance(f"topo-unit-backbone|{tn}", mol(tok("N"), sto("[>]", [u2], [], "[<]", g0(round(1.5 * mass(u2), 3))), tok("F")), family="role-topology")
+    # 15. one descriptor symbol in two bond orders inside ONE object (a cache / table keyed by the descriptor text alone
+    #     confuses them): units with a single- and a double-bond descriptor, end groups of both orders, prefix hand-over
+    t20 = g0(round(1.6 * mass("[$]CC=[$]"), 3))
+    yield Instance("mixed-orders|ends", mol(sto("[]", ["[$]CC=[$]"], ["[$]C", "[$]=O"], "[]", t20)), family="mixed-bond-orders")
+    yield Instance("mixed-orders|branch", mol(tok("N"), sto("[$]", ["[$]CC(=[$])C[$]"], ["[$]F", "[$]=O"], "[$]", g0(round(1.2 * mass("[$]CC(=[$])C[$]"), 3))), tok("Br")), family="mixed-bond-orders")
+    yield Instance("mixed-orders|units", mol(tok("N"), sto("[$]", ["[$]CC[$]", "[$]=CC=[$]", "[$]C(C)=[$]"], ["[$][H]", "[$]=O"], "[$]", g0(50.0)), tok("F")), family="mixed-bond-orders")
+    yield Instance("mixed-orders|dir", mol(tok("N"), sto("[>]", ["[<]CC=[>]", "[<]=CC[>]"], ["[<]=O", "[<]F"], "[<]", g0(45.0)), tok("Cl")), family="mixed-bond-orders")
+    yield Instance("mixed-orders|prefix-double", mol(tok("CC=[$]"), sto("[$]", ["[$]=CC[$]", "[$]CC=[$]"], ["[$][H]", "[$]=O"], "[]", g0(45.0))), family="mixed-bond-orders")
     if thorough:
         yield Instance("chem-mix2", mol(tok("c1ccccc1C"), sto("[>]", ["[<]C1CCC([>])CC1", "[<][Si](C)(C)[>]", "[<]C(Cl)C[>]"], [], "[<]", g0(150.0)), tok("Br")), family="chemistry")
 
